@@ -96,7 +96,11 @@ func init() {
 			return err
 		}
 		e.rep.Rule += "; plus pinned pairs of methods over one struct pair (S->T next to *S->*T / *S->T / S->*T) where the pointer variant carries field settings that the inner struct conversion would bypass, with and without context arguments on either method: the run must be refused (property-level oracle through the binary)"
-		return c05Bypass(e)
+		if err := c05Bypass(e); err != nil {
+			return err
+		}
+		e.rep.Rule += "; plus projects in which the methods carrying field settings reach the converter through embedded interfaces (same file, other file, other package, literal, alias, two levels, two interfaces; control: written in the converter): refused with a diagnostic, or every setting is honoured by the executed generated code (pinned oracle from the written settings, through the binary)"
+		return c05Reach(e)
 	}
 	campaigns["C08"] = func(e *env) error {
 		e.rep.Rule = "cases = (converter, method, value): enum pairs over int, uint8 and string underlying types with duplicate-valued members, mapped by enum:transform regex and enum:map (members and actions), with every enum:unknown policy (@error, @panic, @ignore, a member, missing), in top-level, struct field, slice element and map value positions; executed over member and non-member values; compared with Gv.Gen (outcome) + Gv.Eval (switch semantics). non-trivial = every call or diagnostic; distinct = (converter, method, value)"
